@@ -14,6 +14,8 @@ mkdir -p "$X/repo" "$X/verif"
 rsync -a --exclude target --exclude .git /repo/ "$X/repo/"
 rsync -a --exclude target --exclude .git --exclude replay --exclude evidence /verif/ "$X/verif/"
 mkdir -p "$X/verif/harness"
+# the harness depends on the repository crates by absolute path: point the copy at the scratch repo
+sed -i "s#path = \"/repo/#path = \"$X/repo/#" "$X/verif/harness/Cargo.toml"
 # reuse compiled registry dependencies
 if [ -d /verif/harness/target ]; then cp -a /verif/harness/target "$X/verif/harness/target" 2>/dev/null; fi
 if [ "$PATCH" != "-" ]; then
